@@ -7,7 +7,7 @@ delegate to inner commands for safety checks.
 from __future__ import annotations
 
 from dippy.cli import Classification, HandlerContext
-from dippy.core.bash import bash_quote
+from dippy.core.bash import bash_join
 
 COMMANDS = ["fd"]
 
@@ -54,7 +54,7 @@ def classify(ctx: HandlerContext) -> Classification:
         return Classification("ask", description=f"fd {flag_desc} (no command)")
 
     # Delegate to inner command check
-    inner_cmd = " ".join(bash_quote(t) for t in inner_tokens)
+    inner_cmd = bash_join(inner_tokens)
     flag_desc = FLAG_DISPLAY.get(exec_flag, exec_flag)
     return Classification(
         "delegate",
